@@ -1,14 +1,17 @@
 #!/bin/bash
-# Re-runs every kept seeded change against the check recorded as catching it; each must exit 1.
+# Re-runs every kept seeded change against the check recorded as catching it (scratch worktree of
+# /repo HEAD + patch; /repo is never touched); each must exit 1. usage: tools/seeded_all.sh [parallelism]
 cd /verif
-ok=0; bad=0
-for d in seeded/*/; do
-  id=$(basename "$d")
+P=${1:-3}
+job() {
+  d=$1; id=$(basename "$d")
   prop=$(python3 -c "import json;print(json.load(open('$d/meta.json'))['caught_by'].split()[0])")
   out=$(tools/seedrun.sh "$prop" "$d/patch.diff" quick ${VERIF_SEED:-1} 2>&1 | tail -1)
   case "$out" in
-    exit=1*) ok=$((ok+1)); echo "caught  $id by $prop ($out)";;
-    *) bad=$((bad+1)); echo "MISSED  $id by $prop ($out)";;
+    exit=1*) echo "caught  $id by $prop ($out)";;
+    *) echo "MISSED  $id by $prop ($out)";;
   esac
-done
-echo "caught=$ok missed=$bad"
+}
+export -f job
+ls -d seeded/*/ | xargs -P "$P" -I{} bash -c 'job {}' | tee .work/seeded_all.log
+echo "caught=$(grep -c '^caught' .work/seeded_all.log) missed=$(grep -c '^MISSED' .work/seeded_all.log)"
